@@ -67,6 +67,9 @@ def main():
             props = [prop] + [p for p in RELATED.get(prop, []) if p != prop]
             prev = [p for p in (meta.get("detected_by") or []) if p not in props]
             detected = {}
+            if "--own-only" in sys.argv:
+                props, prev = [prop], []
+                detected = dict(meta.get("checks") or {})
             for p in props + prev:
                 rc, o = sh("./check %s --tier quick" % p, cwd=VERIF, env=env)
                 keys = []
